@@ -25,11 +25,16 @@ class BaseParser(ABC):
     def find_file_locations(self) -> List[Path]:
         # like source files, symlinked manifests are skipped: writing through one
         # could modify a file outside the project directory
-        return [
-            path
-            for path in Path(self.parent_directory).rglob(self.file_type.value)
-            if not path.is_symlink()
-        ]
+        # sorted (shallowest first): the order decides which file takes a new
+        # dependency and must not follow the directory enumeration order
+        return sorted(
+            (
+                path
+                for path in Path(self.parent_directory).rglob(self.file_type.value)
+                if not path.is_symlink()
+            ),
+            key=lambda path: (len(path.parts), path),
+        )
 
     def parse(self) -> list[PackageStore]:
         """
